@@ -56,6 +56,11 @@ pub fn gen_scenario(r: &mut Rng, tier: Tier) -> (Scenario, &'static str) {
     if r.chance(1, 20) {
         workload::end_on_last_jumpdest(&mut code);
     }
+    // (The limit on a single memory operation is explored up to 64 KiB. "No
+    // limit" is a valid configuration too, but under it the memory the library
+    // uses is proportional to attacker-chosen sizes by design - the knob *is*
+    // the bound, and `Memory::load_slice` is not polled - so a worker killed
+    // by the address-space limit could not be told from a defect.)
     let knobs = workload::mixed_knobs(r, 50);
     let sched = if r.chance(1, 2) {
         Sched::natural(r.next())
@@ -200,6 +205,7 @@ impl Check for C01Check {
                 "panics are caught with catch_unwind in the worker; aborts, stack overflows (8 MiB stack for half of the cases, 2 MiB - a spawned thread's default - for the other half) and address-space exhaustion (3 GiB) kill the worker and are attributed to the announced case by the parent",
                 "the harness build uses the repository's release settings: overflow-checks on, debug-assertions off",
                 "runs that exceed 400k loop iterations are ended by the step budget and are inconclusive here",
+                "the limit on a single memory operation is explored from 1 byte to 64 KiB; \"no limit\" is not (memory use is then proportional to attacker-chosen sizes by design, so worker deaths could not be told from defects)",
             ],
             components: super::components(),
         }
